@@ -819,10 +819,11 @@ class Expander:
             it = self._inline_call(t2, caller, force=True, effects=effects)
             if it is not None:
                 return self.force_inline(it, caller, depth - 1, effects)
-        if t2[0] == "item" and len(t2) == 3 and isinstance(t2[2], int) and isinstance(t2[1], tuple) and t2[1] and t2[1][0] == "tuple" \
-                and -len(t2[1][1]) <= t2[2] < len(t2[1][1]):
-            # `a, b = helper(...)` with the helper's returned tuple in hand: the component
-            return t2[1][1][t2[2]]
+        if t2[0] == "item" and len(t2) == 3 and isinstance(t2[2], int) and isinstance(t2[1], tuple) and t2[1]:
+            # `a, b = helper(...)` with the helper's returned tuple(s) in hand: the component (of every alternative)
+            pr = _project_item(t2[1], t2[2])
+            if pr is not None:
+                return pr
         return t2
 
     def _force_inline_any(self, x, caller: Func, depth: int, effects: bool = False):
@@ -855,6 +856,23 @@ class Expander:
             self._active.discard(key)
         self._memo[key] = t
         return t
+
+
+def _project_item(t: Term, i: int):
+    """component i of a value that is a tuple, or a conditional / alternative of tuples (None: not of that shape)"""
+    if t[0] == "tuple":
+        return t[1][i] if -len(t[1]) <= i < len(t[1]) else None
+    if t[0] == "ifexp":
+        a, b = _project_item(t[2], i), _project_item(t[3], i)
+        if a is None or b is None:
+            return None
+        return a if a == b else ("ifexp", t[1], a, b)
+    if t[0] == "phi":
+        ps = [_project_item(x, i) for x in t[1]]
+        if any(p is None for p in ps):
+            return None
+        return phi(ps)
+    return None
 
 
 _CONTENT_MUTATORS = {
